@@ -1,1 +1,158 @@
-fn main(){}
+//! chk-serde: C20 only (ipp built with feature `serde`).
+
+use ipp::prelude::*;
+use proptest::prelude::*;
+use serde_json::{json, Value};
+use std::io::Read;
+use vcore::canon::*;
+use vcore::gen;
+use vcore::model::*;
+use vcore::runner::*;
+
+#[derive(Clone, Debug)]
+struct Case {
+    m: MMsg,
+}
+
+fn widen_dirs(v: &mut CValue, chars: &[char], k: &mut usize) {
+    match v {
+        CValue::DateTime { dir, .. } => {
+            if *k % 2 == 0 {
+                *dir = chars[*k % chars.len()] as u32;
+            }
+            *k += 1;
+        }
+        CValue::Set(l) => l.iter_mut().for_each(|e| widen_dirs(e, chars, k)),
+        CValue::Coll(m) => m.values_mut().for_each(|e| widen_dirs(e, chars, k)),
+        _ => {}
+    }
+}
+
+fn case() -> BoxedStrategy<Case> {
+    (gen::m_msg(6), proptest::collection::vec(any::<char>(), 4))
+        .prop_map(|(mut m, chars)| {
+            // serde has no wire-length restrictions: utc_dir may be any char
+            let mut k = 0;
+            for g in m.canon.groups.iter_mut() {
+                for v in g.1.values_mut() {
+                    widen_dirs(v, &chars, &mut k);
+                }
+            }
+            Case { m }
+        })
+        .boxed()
+}
+
+fn judge(c: &Case, p: &Probe) -> Judge {
+    let m = &c.m;
+    let s = shape_of(&m.canon);
+    for k in &s.kinds {
+        p.label(&format!("kind:{k}"));
+    }
+    let nt = s.other_nonempty || s.max_depth >= 2 || s.non_ascii;
+    if nt {
+        p.nontrivial(hash64(m));
+        p.label("non-trivial");
+        if p.want_sample() {
+            p.sample(abbreviate(&mmsg_json(m)));
+        }
+    } else {
+        p.label("trivial");
+    }
+    if s.other_nonempty {
+        p.label("raw-octet value with data");
+    }
+    if s.max_depth >= 2 {
+        p.label("nested collection");
+    }
+    let msg = m.build();
+    let expected = canon_of(&msg, false);
+    if expected != m.canon {
+        return Err(Fail::new("harness/model-build", "built message differs from the model".to_string()));
+    }
+    // ---- whole message
+    let js = catch(|| serde_json::to_string(&msg)).map_err(|e| Fail::new(format!("C20/{}", panic_sig(&e)), format!("serialising panicked: {e}")))?.map_err(|e| Fail::new("C20/serialize-error", format!("to_string failed: {e}")))?;
+    let back: IppRequestResponse = catch(|| serde_json::from_str::<IppRequestResponse>(&js))
+        .map_err(|e| Fail::new(format!("C20/{}", panic_sig(&e)), format!("deserialising panicked: {e}")))?
+        .map_err(|e| Fail::new("C20/deserialize-error", format!("from_str failed on the serialiser's own output: {e}; json={}", js.chars().take(400).collect::<String>())))?;
+    let got = canon_of(&back, false);
+    if got != expected {
+        let d = canon_match(&expected, &got).err().unwrap_or_else(|| "structures differ (set/scalar shape)".into());
+        return Err(Fail::new("C20/content", format!("after serialise/deserialise: {d}")));
+    }
+    let js2 = serde_json::to_string(&back).map_err(|e| Fail::new("C20/serialize-error", format!("{e}")))?;
+    let (v1, v2): (Value, Value) = (serde_json::from_str(&js).unwrap(), serde_json::from_str(&js2).unwrap());
+    if v1 != v2 {
+        return Err(Fail::new("C20/reserialise-differs", "serialising the deserialised message gives a different JSON document".to_string()));
+    }
+    if !m.payload.is_empty() && js.len() < m.payload.len() && m.payload.len() > 4096 {
+        // (a payload that had been serialised would show up in the size)
+    }
+    let mut pl = Vec::new();
+    back.into_payload().read_to_end(&mut pl).map_err(|e| Fail::new("C20/payload-read", format!("{e}")))?;
+    if !pl.is_empty() {
+        return Err(Fail::new("C20/payload-not-empty", format!("payload of the deserialised message has {} bytes", pl.len())));
+    }
+    // ---- bare IppAttributes
+    let ja = serde_json::to_string(msg.attributes()).map_err(|e| Fail::new("C20/serialize-error", format!("attributes: {e}")))?;
+    let ba: IppAttributes = serde_json::from_str(&ja).map_err(|e| Fail::new("C20/deserialize-error", format!("attributes: {e}")))?;
+    if canon_attrs(&ba, false) != expected.groups {
+        return Err(Fail::new("C20/content", "bare IppAttributes differ after the round trip".to_string()));
+    }
+    // ---- bare values
+    for g in m.canon.groups.iter() {
+        for v in g.1.values() {
+            let iv = to_ipp(v);
+            let jv = serde_json::to_string(&iv).map_err(|e| Fail::new("C20/serialize-error", format!("value: {e}")))?;
+            let bv: IppValue = serde_json::from_str(&jv).map_err(|e| Fail::new("C20/deserialize-error", format!("value: {e}; json={}", jv.chars().take(300).collect::<String>())))?;
+            if bv != iv {
+                return Err(Fail::new("C20/content", format!("bare value differs after the round trip: {}", jv.chars().take(300).collect::<String>())));
+            }
+        }
+    }
+    Ok(())
+}
+
+fn main() {
+    let args: Vec<String> = std::env::args().collect();
+    install_silent_panic_hook();
+    if args.len() < 3 || args[1] != "C20" {
+        eprintln!("usage: chk-serde C20 quick|thorough|--replay <file>");
+        std::process::exit(2);
+    }
+    match args[2].as_str() {
+        "quick" | "thorough" => {
+            let tier = if args[2] == "quick" { Tier::Quick } else { Tier::Thorough };
+            let ctx = Ctx::new("C20", tier, "exploration");
+            ctx.set_rule("proptest-generated model messages (domain of C01, utc_dir widened to any char) serialised with serde_json and deserialised: header, groups, names, values must be equal WITHOUT identifying one-element sets; re-serialising gives the same JSON document (map-order-insensitive); payload reads as empty afterwards; bare IppAttributes and every bare IppValue round-trip too. Non-trivial = contains a raw-octet (Other) value with data, a collection nested >=2, or non-ASCII text/char; distinct by hash of the model message.");
+            ctx.assume("JSON (serde_json) is the carrier format");
+            let (shards, per) = tier.pick((16, 1500), (16, 40000));
+            run_prop(&ctx, "serde-roundtrip", shards, per, case, judge, |c| mmsg_json(&c.m));
+            std::process::exit(ctx.finish());
+        }
+        "--replay" => {
+            let path = &args[3];
+            let doc: Value = serde_json::from_str(&std::fs::read_to_string(path).expect("replay file")).expect("json");
+            let mut ctx = Ctx::new("C20", Tier::Quick, "exploration");
+            ctx.replay_mode = true;
+            let m = mmsg_from_json(doc.get("case").unwrap_or(&Value::Null)).expect("case");
+            match judge(&Case { m }, &Probe { ctx: &ctx, counting: false }) {
+                Ok(()) => {
+                    println!("replay {path}: case passes");
+                    std::process::exit(0)
+                }
+                Err(f) => {
+                    println!("--- C20: {}\n    {}", f.sig, f.msg);
+                    println!("VIOLATION property=C20 replay={path}");
+                    std::process::exit(1)
+                }
+            }
+        }
+        _ => std::process::exit(2),
+    }
+}
+
+#[allow(dead_code)]
+fn _j() -> Value {
+    json!(null)
+}
